@@ -110,7 +110,13 @@ def run_case(case):
     ops = _all_ops()
     terms = {o.name: o for o in programs.TERMINAL}
     h, t, tn, how, cutpos = case["head"], case["tail"], case["term"], case["how"], case["cut"]
-    env = programs.dask_env(*[(None, None, True), ([0, 0, 3, 8], [0, 6], True), ([0, 1, 2, 4, 8], [0, 1, 6], False)][case.get("layout", 0)])
+    if case.get("layout", 0) == 3:
+        # a bare from_pandas source: partition selections are absorbed into the source node itself
+        import dask_expr as dx
+
+        env = {"L": dx.from_pandas(e2e.T_int(), npartitions=3), "R": dx.from_pandas(e2e.T_right(), npartitions=2)}
+    else:
+        env = programs.dask_env(*[(None, None, True), ([0, 0, 3, 8], [0, 6], True), ([0, 1, 2, 4, 8], [0, 1, 6], False)][case.get("layout", 0)])
     penv = programs.pandas_env()
     try:
         terms[tn].fn(ops[t].fn(ops[h].fn(penv["L"])))
@@ -172,6 +178,7 @@ def _cases(ctx):
     ctx.rng.shuffle(cases)
     must = [c for c in cases if (c["head"] in ("parts_rev", "parts_tail", "parts_20") and c["cut"] == 1 and c["how"] == "persist" and c["term"] in ("id", "sum") and c["tail"] in ("proj_ab", "add1"))
             or (c["how"] == "delayed_nv" and c["cut"] == 1 and c["tail"] in ("parts_tail", "parts_20", "tail2c") and c["term"] == "id" and c["head"] in ("add1", "filt_a"))]
+    must = must + [dict(c, layout=3) for c in must if c["how"] == "persist"]
     if ctx.quick:
         cases = must + cases[:220]
     else:
